@@ -334,6 +334,14 @@ impl C09 {
                 );
                 return;
             }
+            if !matches!(t.token_type(), TokenType::Newline) && loc.slice(r.start().raw_index(), r.end().raw_index()).ends_with('\r') {
+                acc.violation(
+                    format!("C09|token|{kind}|ends-in-the-carriage-return-of-the-line-ending"),
+                    case,
+                    witness("the token reaches into the line ending", json!({"token": format!("{:?}", t.token_type()), "range": format!("{r}")})),
+                );
+                return;
+            }
             let has_escape = matches!(t.token_type(), TokenType::String(_) | TokenType::Char(_))
                 && loc.slice(r.start().raw_index(), r.end().raw_index()).contains('\\');
             if has_escape {
@@ -350,12 +358,13 @@ impl C09 {
                 }
             } else if let Some(sp) = spelling(t.token_type()) {
                 let got = loc.slice(r.start().raw_index(), r.end().raw_index());
-                let want = if kind == "comment" { sp.trim_end_matches('\r').to_string() } else { sp };
-                if got.trim_end_matches('\r') != want {
+                // a carriage return in front of the line feed belongs to the line ending, not
+                // to the token in front of it (a comment runs to the end of the line)
+                if got != sp {
                     acc.violation(
                         format!("C09|token|{kind}|text-mismatch"),
                         case,
-                        witness("the characters between start and end are not the token", json!({"token": format!("{:?}", t.token_type()), "designated": got, "expected": want})),
+                        witness("the characters between start and end are not the token", json!({"token": format!("{:?}", t.token_type()), "designated": got, "expected": sp})),
                     );
                     return;
                 }
